@@ -10,6 +10,7 @@ and the real reactors behave like the model is the correspondence check's part (
 ledger monitor's data clauses on real sockets).
 -/
 import Sonic.Model.Xfer
+import Sonic.Model.XferStep
 
 namespace Sonic.Props.C02
 open Sonic.Model.Xfer
@@ -168,5 +169,65 @@ example : readOp 8 true 0 [] [1,2,3,4,5,6,7,8,9,10] [.move 3, .block, .move 7] =
 example : (readOp 8 true 0 [] [1,2,3] [.move 3, .eof]).map (fun o => (o.res, o.n)) = some (.eof, 3) := by decide
 example : (writeOp [1,2,3,4,5] true 0 [] [.move 2, .block, .move 9]).map (fun o => (o.res, o.n, o.wire)) =
     some (.ok, 5, [1,2,3,4,5]) := by decide
+
+/-! ### The monitor of `Spec/Xfer.lean` (the property's clauses on observations) accepts the model -/
+section Monitor
+open Sonic.Model.XferStep
+
+theorem countOk_of (res : Res) (n len : Nat) (all : Bool) (hle : n ≤ len)
+    (hok : res = .ok → 1 ≤ n ∧ (all = true → n = len)) :
+    Sonic.Spec.Xfer.countOk (toRes res) n len all = true := by
+  unfold Sonic.Spec.Xfer.countOk
+  cases res <;> simp [toRes, hle]
+  obtain ⟨h1, h2⟩ := hok rfl
+  refine ⟨h1, ?_⟩
+  cases all <;> simp_all
+
+/-- **C02 (monitor, one read).** Whatever the schedule, the monitor accepts what the model's read callback is given,
+and the monitor's stream afterwards is the model's. -/
+theorem C02_monitor_accepts_read (s : Sonic.Spec.Xfer.S) (len : Nat) (all : Bool) (sched : List KRes) (o : ROut)
+    (h : readOp len all 0 [] s.stream sched = some o) :
+    Sonic.Spec.Xfer.step s (.read len all) (.read (toRes o.res) o.n o.buf true) = some { s with stream := o.stream } := by
+  obtain ⟨hs, hn, hle, hok⟩ := C02_read len all s.stream sched o h
+  have ht : s.stream.take o.n = o.buf := by rw [hs, hn, List.take_left']; rfl
+  have hd : s.stream.drop o.n = o.stream := by rw [hs, hn, List.drop_left']; rfl
+  rw [hn] at ht hd
+  simp only [Sonic.Spec.Xfer.step, hn, countOk_of o.res o.buf.length len all (hn ▸ hle) (hn ▸ hok), ht, hd, and_self, if_true]
+
+/-- **C02 (monitor, one write).** -/
+theorem C02_monitor_accepts_write (s : Sonic.Spec.Xfer.S) (b : List UInt8) (all : Bool) (sched : List KRes) (o : WOut)
+    (h : writeOp b all 0 [] sched = some o) :
+    Sonic.Spec.Xfer.step s (.write b all) (.write (toRes o.res) o.n o.wire) = some { s with wire := s.wire ++ o.wire } := by
+  obtain ⟨hw, hle, hok⟩ := C02_write b all sched o h
+  simp only [Sonic.Spec.Xfer.step, hw, countOk_of o.res o.n b.length all hle hok, and_self, if_true]
+
+/-- **C02 (monitor accepts the model).** For every sequence of reads and writes, every buffer, every stream and every
+per-call behaviour of the transport, the monitor that `sonicdrv xfer` runs on the implementation's observations accepts
+the model's observations: an implementation that agrees with the model on a schedule satisfies the property on it. -/
+theorem C02_monitor_accepts_model : ∀ (ops : List (Sonic.Spec.Xfer.Op × List KRes)) (s : Sonic.Spec.Xfer.S),
+    accepts s ops = true
+  | [], _ => rfl
+  | (.read len all, sched) :: rest, s => by
+    simp only [accepts, mstep]
+    cases h : readOp len all 0 [] s.stream sched with
+    | none => rfl
+    | some o =>
+      simp only [Option.map_some, C02_monitor_accepts_read s len all sched o h]
+      exact C02_monitor_accepts_model rest _
+  | (.write b all, sched) :: rest, s => by
+    simp only [accepts, mstep]
+    cases h : writeOp b all 0 [] sched with
+    | none => rfl
+    | some o =>
+      simp only [Option.map_some, C02_monitor_accepts_write s b all sched o h]
+      exact C02_monitor_accepts_model rest _
+
+/-- The monitor is not trivially accepting: a count above the bytes moved, an invented byte, a `ReadAll` success with a
+short count and a dirty tail are all rejected. -/
+example : Sonic.Spec.Xfer.step { stream := [1,2,3] } (.read 4 false) (.read .ok 3 [1,2,9] true) = none := by decide
+example : Sonic.Spec.Xfer.step { stream := [1,2,3] } (.read 4 true) (.read .ok 3 [1,2,3] true) = none := by decide
+example : Sonic.Spec.Xfer.step { stream := [1,2,3] } (.read 4 false) (.read .ok 2 [1,2] false) = none := by decide
+example : Sonic.Spec.Xfer.step { stream := [] } (.write [1,2,3] true) (.write .err 3 [1,2] ) = none := by decide
+end Monitor
 
 end Sonic.Props.C02
